@@ -120,6 +120,10 @@ func (vm *Vm) Run(ctx context.Context, b []byte) ([]byte, error) {
 	logg.Tracef("new vm run")
 	running := true
 	vm.last = ""
+	// a new run handles a new input: forget the match of the previous one
+	if !vm.st.MatchFlag(state.FLAG_TERMINATE, true) {
+		vm.st.ResetFlag(state.FLAG_INMATCH)
+	}
 	defer func() { vm.verifStep("exit", b) }()
 	for running {
 		vm.verifStep("top", b)
@@ -382,10 +386,8 @@ func (vm *Vm) runInCmp(ctx context.Context, b []byte) ([]byte, error) {
 		panic(err)
 	}
 	if have {
-		if reading {
-			logg.DebugCtxf(ctx, "ignoring input - already have match", "input", sym)
-			return b, nil
-		}
+		logg.DebugCtxf(ctx, "ignoring input - already have match", "input", sym, "reading", reading)
+		return b, nil
 	} else {
 		vm.st.SetFlag(state.FLAG_READIN)
 	}
